@@ -211,7 +211,8 @@ type Env struct {
 	// nothing and take no lock, so that the harness adds no happens-before
 	// edges between tasks; only the race detector and the final Results
 	// are judged.
-	Race bool
+	Race  bool
+	slots []uint64 // one plain variable per unit, written by its body in Race mode
 
 	shared *TaskErr // the one error instance returned by every unit whose outcome says EV=3
 }
@@ -225,6 +226,7 @@ func NewEnv(id int, spec *Spec, scn *Scenario) *Env {
 	for _, eo := range scn.Elems {
 		e.elemOut[[2]int{eo.Unit, eo.Elem}] = eo.O
 	}
+	e.slots = make([]uint64, spec.Units+1)
 	n := spec.Emitters
 	if spec.EmitShared {
 		n++ // the decoy
@@ -331,6 +333,16 @@ func (e *Env) Result(k int, tag uint64) {
 // Arg logs the evaluation of the k-th wrapped argument expression and
 // returns the value unchanged.
 func Arg[T any](e *Env, k int, v T) T {
+	if e.Race {
+		// plain reads of the slots the task bodies write (see begin): race
+		// free as long as every argument expression is evaluated before the
+		// directive hands anything to the scheduler
+		var sum uint64
+		for i := range e.slots {
+			sum += e.slots[i]
+		}
+		runtime.KeepAlive(sum)
+	}
 	ev := Event{Kind: "arg", Unit: k, Elem: -1, Idx: -1, Start: Seq(), Gid: Gid()}
 	e.mu.Lock()
 	e.ArgLog = append(e.ArgLog, ev)
@@ -367,6 +379,9 @@ func (e *Env) outcomeFor(unit, elem int) Outcome {
 // begin logs the start of a unit invocation and applies timing/cancel.
 func (e *Env) begin(unit, elem, idx int, key string, ctx context.Context, ins []uint64) (int, Outcome) {
 	if e.Race {
+		if elem < 0 && unit >= 0 && unit < len(e.slots) {
+			e.slots[unit]++ // plain write to the unit's own slot (no two invocations of such a unit overlap)
+		}
 		o := e.outcomeFor(unit, elem)
 		switch o.T {
 		case 1:
